@@ -3,6 +3,7 @@ package props
 import (
 	"context"
 	"fmt"
+	"io"
 	"sync"
 	"sync/atomic"
 	"time"
@@ -189,6 +190,17 @@ func c09Gen(tier string, seed int64) []fw.Case {
 				}
 			}
 		}
+		// message writers around the close: one left open and closed only after the connection has been closed,
+		// and one that was written to again after its Close (an error) long before
+		for _, adv := range []string{"silent", "late-echo", "half-close"} {
+			for _, st := range []string{"writer-open-closed-afterwards", "write-to-closed-writer-earlier"} {
+				for _, cl := range []string{"Close", "CloseNow"} {
+					for _, defl := range []bool{false, true} {
+						add(c09Desc{Role: role, Adversary: adv, State: st, Closer: cl, Deflate: defl})
+					}
+				}
+			}
+		}
 		// the peer breaks the protocol (one frame of each kind), then stays silent
 		for _, v := range c09Violations {
 			for _, st := range []string{"idle", "reader-blocked", "closeread", "pinger-waiting"} {
@@ -321,6 +333,7 @@ func c09Run(r *fw.R, d c09Desc) {
 		go func() { defer close(b.done); f() }()
 	}
 	var crCtx, crCtx2 context.Context
+	var lateWriter io.WriteCloser
 	switch d.State {
 	case "reader-blocked":
 		block("Read", func() {
@@ -369,6 +382,37 @@ func c09Run(r *fw.R, d c09Desc) {
 				}
 			}
 		})
+	case "writer-open-closed-afterwards":
+		w, err := c.Writer(ctx, websocket.MessageText)
+		if err == nil {
+			_, err = w.Write([]byte("a message that is still open when the connection closes"))
+		}
+		if err != nil {
+			r.Violate("C09/setup-failed", "opening a writer: "+err.Error(), "")
+			return
+		}
+		lateWriter = w
+	case "write-to-closed-writer-earlier":
+		w, err := c.Writer(ctx, websocket.MessageText)
+		if err == nil {
+			_, err = w.Write([]byte("complete"))
+		}
+		if err == nil {
+			err = w.Close()
+		}
+		if err != nil {
+			r.Violate("C09/setup-failed", "writing a message: "+err.Error(), "")
+			return
+		}
+		if _, err := w.Write([]byte("after Close")); err == nil {
+			r.Violate("C09/setup-failed", "a Write to a closed message writer returned nil", "")
+			return
+		}
+		// the connection keeps working after that mistake
+		if err := c.Write(ctx, websocket.MessageText, []byte("next")); err != nil {
+			r.Violate("C09/setup-failed", "a Write after the refused one failed: "+err.Error(), "")
+			return
+		}
 	case "fragment-buffered":
 		w, err := c.Writer(ctx, websocket.MessageBinary)
 		if err == nil {
@@ -482,6 +526,18 @@ func c09Run(r *fw.R, d c09Desc) {
 		timing("C09/"+d.Closer+"-too-slow/"+d.Adversary+"/"+d.State, fmt.Sprintf("%s took %v, bound %v", d.Closer, el.Round(time.Millisecond), bound))
 	}
 	tRet := time.Now()
+	if lateWriter != nil {
+		// the application closes its message writer only now (a deferred Close): a call on a closed connection
+		wdone := make(chan error, 1)
+		go func() { wdone <- lateWriter.Close() }()
+		select {
+		case <-wdone:
+			r.Count("blocked_calls_released", 1)
+		case <-time.After(20 * time.Second):
+			timing("C09/call-on-closed-connection-never-returned/Writer.Close", "Close of a message writer that was open when the connection closed had not returned after 20 s")
+			return
+		}
+	}
 	for _, b := range blockedCalls {
 		select {
 		case <-b.done:
